@@ -21,7 +21,7 @@ def timeSplitLS {α} (c : TsCfg α) : LSplit α where
       | none => (t, t, [Cmd.opn 0])
       | some (s, l) => (s, l, [])
     if tsExpired c start last t then (some (t, t), pre ++ [.cls 0, .opn 0, .itm 0 x])
-    else if (match c.closing with | some f => f x | none => false) then
+    else if c.closes x then
       if c.incl then (some (t, t), pre ++ [.itm 0 x, .cls 0, .opn 0])
       else (some (t, t), pre ++ [.cls 0, .opn 0, .itm 0 x])
     else (some (start, t), pre ++ [.itm 0 x])
